@@ -196,7 +196,13 @@ def polya_cases(draw):
             out.append((draw(st.integers(2, 45)), draw(st.integers(20, 1500)),
                         draw(st.sampled_from(["pure", "pure", "mixed", "prefix"]))))
         return out
-    return {"body": body, "ta": tails() if side in ("A", "both") else [],
+    # degraded reads: a single short body exon that itself is mostly tail, so that *all* exons may look like tail
+    body_kind = draw(st.sampled_from(["normal", "normal", "normal", "mostly_tail"]))
+    if body_kind == "mostly_tail":
+        ln = draw(st.integers(6, 45))
+        body = [[body[0][0], body[0][0] + ln - 1]]
+    return {"body": body, "body_kind": body_kind, "body_tail_frac": draw(st.sampled_from([0.5, 0.7, 0.9, 1.0])),
+            "ta": tails() if side in ("A", "both") else [],
             "tt": tails() if side in ("T", "both") else [],
             "clip_a": draw(st.integers(0, 40)), "clip_t": draw(st.integers(0, 40)),
             "mfte": draw(st.sampled_from([0, 20, 40]))}
@@ -250,7 +256,17 @@ def eval_polya(case, ctx):
             cigar.append((sam.N, b[0] - allb[i - 1][0][1] - 1))
         ln = b[1] - b[0] + 1
         cigar.append((sam.M, ln))
-        q += seq_for(b, k, ch) if k else (filler * (ln // 10 + 1))[:ln]
+        if k:
+            q += seq_for(b, k, ch)
+        elif case.get("body_kind") == "mostly_tail":
+            nt = int(ln * case.get("body_tail_frac", 1.0))
+            plain = (filler * (ln // 10 + 1))[:ln - nt]
+            if left and not right:
+                q += "T" * nt + plain        # T head continues into the body
+            else:
+                q += plain + "A" * nt        # A tail starts inside the body
+        else:
+            q += (filler * (ln // 10 + 1))[:ln]
     if case["clip_a"] and right:
         cigar.append((sam.S, case["clip_a"]))
         q += "A" * case["clip_a"]
